@@ -48,7 +48,7 @@ pub fn families(tier: Tier) -> Vec<Family> {
     v.push(Family {
         name: "outerr",
         letters: vec![CO, CE, RO, RE, H],
-        depth: tier.pick(4, 5),
+        depth: tier.pick(3, 5),
         sizes: if q { vec![CAP + 1] } else { vec![1, CAP + 1] },
         chunks: vec![CAP],
         max_polls: 2,
@@ -79,7 +79,7 @@ pub fn families(tier: Tier) -> Vec<Family> {
     // wait vs. exit vs. buffered output, every exit mode
     v.push(Family {
         name: "status",
-        letters: vec![CO, CX, RO, WT, H],
+        letters: if q { vec![CO, CX, WT, H] } else { vec![CO, CX, RO, WT, H] },
         depth: tier.pick(3, 5),
         sizes: if q { vec![CAP + 1] } else { vec![1, CAP + 1] },
         chunks: vec![CAP],
